@@ -27,6 +27,45 @@ class BV:
         return 'BV(%s,%s%d)' % (self.v, 'i' if self.signed else 'u', self.v.size())
 
 
+class FP:
+    """An f64 value (z3 Float64 term).  All NaNs are one value, as in the SMT-LIB theory."""
+    __slots__ = ('v',)
+
+    def __init__(self, v):
+        self.v = v
+
+    def __repr__(self):
+        return 'FP(%s)' % (self.v,)
+
+
+def fp_const(x):
+    from z3 import FPVal, Float64
+    return FP(FPVal(x, Float64()))
+
+
+def fp_binop(op, x, y):
+    """MIR binary operators on f64 operands (IEEE 754, round to nearest even)."""
+    from z3 import fpAdd, fpSub, fpMul, fpDiv, fpEQ, fpLT, fpLEQ, fpGT, fpGEQ, RNE
+    if op in ('Add', 'Sub', 'Mul', 'Div'):
+        return FP({'Add': fpAdd, 'Sub': fpSub, 'Mul': fpMul, 'Div': fpDiv}[op](RNE(), x, y))
+    if op == 'Rem':
+        return FP(fp_fmod(x, y))
+    if op == 'Eq':
+        return fpEQ(x, y)
+    if op == 'Ne':
+        return Not(fpEQ(x, y))
+    if op in ('Lt', 'Le', 'Gt', 'Ge'):
+        return {'Lt': fpLT, 'Le': fpLEQ, 'Gt': fpGT, 'Ge': fpGEQ}[op](x, y)
+    raise Unsupported('float binop ' + op)
+
+
+def fp_fmod(x, y):
+    """Rust's `%` on floats is C fmod (remainder of truncated division); z3's fpRem is the IEEE remainder, a different
+    function, so fmod stays uninterpreted (the same symbol on the reference side)."""
+    from z3 import Function, Float64
+    return Function('fmod_f64', Float64(), Float64(), Float64())(x, y)
+
+
 class Unit:
     def __repr__(self):
         return '()'
@@ -671,6 +710,9 @@ class VM:
         m = re.fullmatch(r"'(.)'", c)
         if m:
             return BV(BitVecVal(ord(m.group(1)), 32), False)
+        mf = re.fullmatch(r'(-?(?:\d+(?:\.\d+)?(?:[eE][-+]?\d+)?|inf|NaN))_?f64', c)
+        if mf:
+            return fp_const(float(mf.group(1)))
         if re.fullmatch(r'-?\d+(\.\d+)?(f32|f64)', c) or 'f64' in c:
             return Opaque('float:' + c)
         m = re.fullmatch(r'(?:core::num::<impl )?([iu](?:8|16|32|64|128|size))>?::(MIN|MAX)', c)
@@ -737,6 +779,9 @@ class VM:
             a = self.operand(m, fr, mm.group(2))
             if mm.group(1) == 'Not':
                 return BV(~a.v, a.signed) if isinstance(a, BV) else Not(bool_(a))
+            if isinstance(a, FP):
+                from z3 import fpNeg
+                return FP(fpNeg(a.v))
             return BV(-a.v, a.signed)
         if mm and mm.group(1) in ('Len', 'PtrMetadata'):
             v = self.read(m, fr, mm.group(2)) if not mm.group(2).startswith(('copy', 'move')) else self.operand(m, fr, mm.group(2))
@@ -875,6 +920,8 @@ class VM:
 
     # -------------------------------------------------------------------------------- arithmetic
     def binop(self, op, a, b):
+        if isinstance(a, FP) and isinstance(b, FP):
+            return fp_binop(op, a.v, b.v)
         if op in ('Eq', 'Ne') and not isinstance(a, BV):
             x, y = bool_(a), bool_(b)
             return (x == y) if op == 'Eq' else (x != y)
@@ -949,6 +996,21 @@ class VM:
             return BV(SignExt(w - cur, v.v) if v.signed else ZeroExt(w - cur, v.v), s)
         if kind.startswith('PointerCoercion') or kind in ('Transmute', 'PtrToPtr', 'Subtype'):
             return v
+        if kind == 'IntToFloat' and ty == 'f64' and isinstance(v, BV):
+            from z3 import fpSignedToFP, fpUnsignedToFP, RNE, Float64
+            return FP((fpSignedToFP if v.signed else fpUnsignedToFP)(RNE(), v.v, Float64()))
+        if kind == 'IntToFloat' and ty == 'f64' and (isinstance(v, BoolRef) or isinstance(v, bool)):
+            from z3 import FPVal, Float64
+            return FP(If(bool_(v), FPVal(1.0, Float64()), FPVal(0.0, Float64())))
+        if kind == 'FloatToInt' and isinstance(v, FP) and ty in INT_TYPES:
+            # `as` saturates and maps NaN to 0
+            from z3 import fpToSBV, fpToUBV, fpIsNaN, fpLT, fpGEQ, FPVal, Float64, RTZ
+            w, sg = INT_TYPES[ty]
+            lo, hi = (-(1 << (w - 1)), (1 << (w - 1))) if sg else (0, 1 << w)
+            mn, mx = (BitVecVal(lo, w), BitVecVal(hi - 1, w))
+            conv = (fpToSBV if sg else fpToUBV)(RTZ(), v.v, __import__('z3').BitVecSort(w))
+            r = If(fpIsNaN(v.v), BitVecVal(0, w), If(fpLT(v.v, FPVal(float(lo), Float64())), mn, If(fpGEQ(v.v, FPVal(float(hi), Float64())), mx, conv)))
+            return BV(r, sg)
         if kind in ('IntToFloat', 'FloatToInt', 'FloatToFloat'):
             return Opaque('float-cast')
         raise Unsupported('cast kind ' + kind)
